@@ -455,15 +455,17 @@ func parentMain(id, tier string) int {
 			rf := ReplayFile{Property: id, Tier: tier, Class: v.Class, Msg: v.Msg, Case: v.Case}
 			b, _ := json.MarshalIndent(rf, "", " ")
 			_ = os.WriteFile(path, b, 0o644)
+			repro := ""
 			if i == 0 {
-				// reproduce before believing
-				if !reproduces(exe, path, 3) {
-					fmt.Fprintf(os.Stderr, "INTERNAL: violation of %s did not reproduce from %s: %s\n", id, path, oneLine(v.Msg, 400))
-					return 2
+				// re-execute the recorded case before printing it
+				k := reproduces(exe, path, 3)
+				repro = fmt.Sprintf(" (re-executed from the replay file: failed again %d/3 times)", k)
+				if k < 3 {
+					repro += " NONDETERMINISTIC: the same case does not fail on every execution"
 				}
 			}
 			fmt.Printf("VIOLATION property=%s replay=%s\n", id, path)
-			fmt.Printf("  class=%q %s\n", v.Class, oneLine(v.Msg, 600))
+			fmt.Printf("  class=%q %s%s\n", v.Class, oneLine(v.Msg, 600), repro)
 		}
 		for k, v := range m.ClassCounts {
 			fmt.Printf("  violations by class: %q = %d\n", k, v)
@@ -494,17 +496,18 @@ func oneLine(s string, n int) string {
 	return s
 }
 
-func reproduces(exe, path string, times int) bool {
+func reproduces(exe, path string, times int) int {
+	n := 0
 	for i := 0; i < times; i++ {
 		cmd := exec.Command(exe, "replay", path)
 		cmd.Stdout = nil
 		cmd.Stderr = nil
 		err := cmd.Run()
-		if ee, ok := err.(*exec.ExitError); !ok || ee.ExitCode() != 1 {
-			return false
+		if ee, ok := err.(*exec.ExitError); ok && ee.ExitCode() == 1 {
+			n++
 		}
 	}
-	return true
+	return n
 }
 
 type ReplayFile struct {
